@@ -57,6 +57,11 @@ pub fn run_job(job: &Job) -> JobResult {
 }
 
 /// Replays one violation file without the explorer; returns the violations it reproduces.
+/// replay kinds that `replay` re-executes as a single case
+pub fn replayable(kind: &str) -> bool {
+    matches!(kind, "plog" | "cat" | "enc" | "off" | "grp" | "sel" | "sched" | "crash" | "perm-history" | "perm23" | "sdk" | "own-journal")
+}
+
 pub fn replay(prop: &str, replay: &Value) -> Vec<Violation> {
     match replay.get("kind").and_then(|k| k.as_str()) {
         Some("plog") => plogp::replay(prop, replay),
